@@ -36,6 +36,9 @@ CASES = {
     'taper-skin': ('G11', None, 'skin', '9'),      # distributed load on unequal segments: every pulse has its own value
     'taper-coat': ('G11', None, 'coat', '12'),
     'wire+arc-fuzzy': ('W+A', None, 'imp', '9'),
+    # the second source is entered as magnitude and phase in degrees (any sign of the magnitude), the first as a complex voltage
+    'src-mag-phase': ('G2', None, 'imp', '9'),
+    'src-mag-phase-gnd': ('G9', 'ideal', 'none', '12'),
 }
 
 
@@ -79,6 +82,8 @@ def _build(M, case, P):
     n = len(m.pulses)
     sp = [0, n - 1] if n > 1 else [0]
     srcs = [M.Excitation(v) for v in P['V'][:len(sp)]]
+    if case.startswith('src-mag-phase') and len(sp) > 1:
+        srcs[1] = M.Excitation(P['mag'], P['ph'])
     for s_, k in zip(srcs, sp):
         m.register_source(s_, k)
     loads = []
@@ -114,6 +119,8 @@ def _sym_params():
         c.assume(z3.Or(v.nr != 0, v.ni != 0))
         c.assume(z3.And(v.nr >= -1000, v.nr <= 1000, v.ni >= -1000, v.ni <= 1000))
     P['ZL'] = SC.var('ZL')
+    P['mag'], P['ph'] = SR.var('mag'), SR.var('ph')
+    c.assume(z3.And(P['mag'].n != 0, P['mag'].n >= -1000, P['mag'].n <= 1000, P['ph'].n >= -360, P['ph'].n <= 360))
     P['a'] = [SR.var('a0'), SR.var('a1'), SR.var('a2')]
     P['b'] = [SR.var('b0'), SR.var('b1'), SR.var('b2')]
     P['eps'] = [pos('eps%d' % i, 1, 80) for i in range(3)]
@@ -126,7 +133,7 @@ def _sym_params():
 
 
 def _conc_params(c):
-    P = dict(f=c['f'], V=[complex(v) for v in c['V']], ZL=complex(c['ZL']), a=list(c['a']), b=list(c['b']),
+    P = dict(f=c['f'], V=[complex(v) for v in c['V']], ZL=complex(c['ZL']), mag=float(c['mag']), ph=float(c['ph']), a=list(c['a']), b=list(c['b']),
              eps=list(c['eps']), sig=list(c['sig']), h=list(c['h']), u=list(c['u']), rr=c['rr'], sigma=c['sigma'])
     return P
 
@@ -160,7 +167,7 @@ def basic_input(ck, sh, mm, case):
             npf.state.angle_axioms = False
             tokens.SIGN_FORK[0] = True
             tokens.EXACT_CONV[0] = False
-        flat = dict(f=P['f'], V=P['V'], ZL=P['ZL'], a=P['a'], b=P['b'], eps=P['eps'], sig=P['sig'], h=P['h'], u=P['u'],
+        flat = dict(f=P['f'], V=P['V'], ZL=P['ZL'], mag=P['mag'], ph=P['ph'], a=P['a'], b=P['b'], eps=P['eps'], sig=P['sig'], h=P['h'], u=P['u'],
                     rr=P['rr'], sigma=P['sigma'])
         return dict(inputs=flat, P=P, m=m, srcs=srcs, sp=sp, loads=loads, text=text, model=model, err=err, loadz=loadz)
 
@@ -192,7 +199,7 @@ def basic_input(ck, sh, mm, case):
             ok.append(z3.BoolVal(pn == k + 1))
             ang = SR.lift(ph) * Fraction(math.pi) / 180       # degrees -> radians, exact rational of the double pi
             cs, sn = core._circle(ang)
-            ok.append(eq_term(SC(SR.lift(mag) * cs, SR.lift(mag) * sn), v))
+            ok.append(eq_term(SC(SR.lift(mag) * cs, SR.lift(mag) * sn), s_.voltage))     # the voltage the solver uses
         g.append(('sources: pulse, magnitude, phase (degrees) give back the voltage', z3.And(*ok)))
         # loads
         gname_, mk_, lk_, ver_ = CASES[case]
@@ -320,7 +327,7 @@ def replay_basic(mm, case, P):
 def main(args):
     ck = Check('C18', args)
     ck.shadow_stats = symx.load().stats
-    names = ['free-imp', 'gnd-ideal', 'lap-v9', 'lap-v12', 'media2', 'taper', 'arc', 'wire+arc-fuzzy', 'taper-skin', 'taper-coat', 'media2-circ-norad', 'media2-linear'] if ck.tier == 'quick' else list(CASES)
+    names = ['free-imp', 'gnd-ideal', 'lap-v9', 'lap-v12', 'media2', 'taper', 'arc', 'wire+arc-fuzzy', 'taper-skin', 'taper-coat', 'media2-circ-norad', 'media2-linear', 'src-mag-phase', 'src-mag-phase-gnd'] if ck.tier == 'quick' else list(CASES)
     run_parallel(ck, 'checks.c18', [('basic_input', (n,)) for n in names])
     ck.assumptions += ['%g/%.12g conversions read back exactly in this check (their 6-digit precision is what "to the precision of the '
                        'printed parameters" allows; the check is about units, order and content)',
